@@ -195,6 +195,17 @@ func streamScope(o *Out, r *rand.Rand, n int, thorough bool) {
 		{"x = \"g\"\nfunc f() { return x }\nfunc g() { var x = \"local\"; return f() }\nprobe(g())", vals.Encode("g")},
 		{"module mm { var a = 1; func get() { return a } }\na = 5\nprobe([mm.a, mm.get()])", vals.Encode([]interface{}{int64(1), int64(1)})},
 		{"module mm { var hidden = 1 }\nprobe(hidden ?? \"invisible\")", vals.Encode("invisible")},
+		// a closure captures its defining scope BY REFERENCE, also when an enclosing scope was still empty when the block was entered
+		{"holder = nil\nfunc setup() {\nif true {\nholder = func() { return prefix + \"-b\" }\n}\nprefix = \"x\"\nreturn holder()\n}\nprobe(setup())", vals.Encode("x-b")},
+		{"holder = nil\nfunc setup() {\ntry {\nholder = func() { return late }\n} catch e {\n}\nvar late = 7\nreturn holder()\n}\nprobe(setup())", vals.Encode(int64(7))},
+		{"hs = []\nfunc poll() {\nn = 0\nfor n < 2 {\nhs += func() { return last }\nn++\n}\nlast = 10\nreturn [hs[0](), hs[1]()]\n}\nprobe(poll())", vals.Encode([]interface{}{int64(10), int64(10)})},
+		{"holder = nil\nfunc outer() {\nfunc inner() {\nfor x in [1] {\nholder = func() { return [a, b] }\n}\nb = 2\n}\ninner()\na = 1\nreturn holder()\n}\nprobe(outer())", vals.Encode([]interface{}{int64(1), int64(2)})},
+		{"holder = nil\nfunc f() {\nswitch 1 {\ncase 1:\nholder = func() { return z }\n}\nz = \"late\"\nreturn holder()\n}\nprobe(f())", vals.Encode("late")},
+		// the same call expression evaluated again looks its callee up again: nearest binding at that time
+		{"func app(f, x) { return f(x) }\nprobe([app(id, 1), app(func(v) { return v + 100 }, 1), app(id, 2)])", vals.Encode([]interface{}{int64(1), int64(101), int64(2)})},
+		{"say = id\nr = []\nfor i = 0; i < 3; i++ {\nr += say(i)\nsay = func(v) { return v * 10 }\n}\nprobe(r)", vals.Encode([]interface{}{int64(0), int64(10), int64(20)})},
+		{"func each(xs, f) {\nfor x in xs {\nf(x)\n}\n}\ntotal = 0\neach([1, 2], probe)\neach([10, 20], func(x) { total += x })\nprobe(total)", vals.Encode(int64(30))},
+		{"g = probe\nfunc call2() { return g(5) }\ncall2()\ng = func(v) { return v + 1 }\nprobe(call2())", vals.Encode(int64(6))},
 	}
 	for _, c := range closureCases {
 		stmt, err := parser.ParseSrc(c.src)
